@@ -164,6 +164,7 @@ def json_roundtrip(x):
 # ---- triple spaces ----------------------------------------------------------------------------------
 
 _d1_cache = {}
+_split = {}     # pseudo seed -> number of leading one-edit states (the rest are two-edit states)
 
 
 def depth1(seed_name):
@@ -174,7 +175,11 @@ def depth1(seed_name):
         if '#' in seed_name:
             base, fam = seed_name.split('#')
             seed = S[base]
-            if fam.startswith('focus:'):
+            if fam == 'compact2':
+                one, two = U.two_edits(seed, QUICK_COMPACT)
+                states = one + two
+                _split[seed_name] = len(one)
+            elif fam.startswith('focus:'):
                 states = U.focus2(seed, fam.split(':')[1])
             elif fam.startswith('lineruns'):
                 states = U.line_runs(seed, 0, 1, int(fam[-1]))
@@ -311,6 +316,17 @@ def space(tier, parts=('a', 'b', 'runs', 'nonroot')):
             for i in iidx:
                 shards.append(('b', sname, 'git', cfgs, None, (i,), iidx))
     if 'runs' in parts:
+        # two edits on one side against one edit on the other, over the compact conflicting alphabet (both role assignments)
+        for sname in (('S45#compact2',) if tier == 'quick' else ('S45#compact2', 'S44#compact2')):
+            seed, d1 = depth1(sname)
+            n1 = _split[sname]
+            one, two = tuple(range(n1)), tuple(range(n1, len(d1)))
+            cfgs = (KEY_CONFIGS[0], KEY_CONFIGS[4]) if tier == 'quick' else tuple(KEY_CONFIGS[:8])
+            info['runs:%s' % sname] = '%d two-edit states x %d one-edit states x 2 role assignments x %d configs' % (len(two), len(one), len(cfgs))
+            for i in two:
+                shards.append(('b', sname, 'git', cfgs, None, (i,), one))
+            for i in one:
+                shards.append(('b', sname, 'git', cfgs, None, (i,), two))
         for sname, cfgs in runs_plan(tier):
             seed, d1 = depth1(sname)
             idx = tuple(range(len(d1)))
